@@ -23,14 +23,21 @@ var verifIndexLimit = indexSizeWithSafetyBuffer
 
 var verifWidthsU1 = []int{1, 5, 61}
 
+// gaps for the hand-over scenario: more than 64 bytes must remain after the block that fills the index buffer
+var verifWidthsU1Wide = []int{1, 5, 131}
+
 func verifLayoutU1(maxK int) []int {
 	K := 2 + verifChoice("K", maxK-1)
+	ws := verifWidthsU1
+	if verifChoice("wide", 2) == 1 {
+		ws = verifWidthsU1Wide
+	}
 	pos := make([]int, K)
 	p := 0
 	for i := 0; i < K; i++ {
 		pos[i] = p
 		if i < K-1 {
-			p += verifWidthsU1[verifChoice("w", len(verifWidthsU1))]
+			p += ws[verifChoice("w", len(ws))]
 		}
 	}
 	return pos
